@@ -11,6 +11,7 @@ Lean model: lean/ThermoVerif/Model/PropCache.lean.
 """
 from __future__ import annotations
 import random, warnings
+import numpy as np
 from harness.core import Case, ImplResult, close
 
 PID = 'C14'
@@ -331,6 +332,38 @@ def run_ops(ops):
                     failures.append({'signature': sig, 'op_index': len(model_in) - 1,
                                      'what': f'`{attr}` read {val!r} but a fresh stream in the same state gives {ref!r} '
                                              f'(object kind {w.kind[o]}, last mutation {w.last_mut[0]})'})
+            elif op == 'readflow':
+                # per-chemical flows in volumetric / mass units: "quantities derived from" the molar volume, held in
+                # flow views with a memo of their own (the per-chemical molar volumes at the T, P of the last write).
+                # No `_get_property` lookup is involved, so the model has no line for it: judged by the oracle alone.
+                o = int(t[1]); s = w.objs[o]; units = t[2]
+                rec = Recorder(w); _REC = rec
+                err = None
+                try:
+                    val = np.asarray(s.get_flow(units), float)
+                except Exception as e:
+                    err = e
+                finally:
+                    _REC = None
+                for ml, ans in rec.lines: emit(ml, ans)
+                w.executed.append('readflow')
+                if s.thermo.chemicals is not s.imol.chemicals:
+                    illformed.append(1)
+                    continue
+                if isinstance(s, tmo.MultiStream) and len(s.phases) != s.imol.data.shape[0]:
+                    continue
+                try:
+                    ref = np.asarray(fresh_like(s).get_flow(units), float)
+                except Exception:
+                    continue
+                if err is not None:
+                    failures.append({'signature': f'raises:{type(err).__name__}:after-{w.last_mut[0]}', 'op_index': max(len(model_in) - 1, 0),
+                                     'what': f'get_flow({units!r}) raised {type(err).__name__}: {err} but a fresh stream in the same state answers'})
+                    continue
+                if val.shape != ref.shape or not np.allclose(val, ref, rtol=1e-9, atol=0.0, equal_nan=True):
+                    failures.append({'signature': f'stale-flow:{units}:{w.kind[o]}:after-{w.last_mut[0]}', 'op_index': max(len(model_in) - 1, 0),
+                                     'what': f'get_flow({units!r}) gives {val.tolist()!r} but a fresh stream with the same molar flows, '
+                                             f'phase(s), T and P gives {ref.tolist()!r} (object kind {w.kind[o]}, last mutation {w.last_mut[0]})'})
             else:
                 # mutators (the recorder stays on: some of them read properties themselves)
                 o = int(t[1]); s = w.objs[o]
@@ -426,6 +459,10 @@ def run_ops(ops):
                 elif op == 'setmass':
                     if isinstance(s, tmo.MultiStream): s.imass[s.phases[int(t[4]) % len(s.phases)], t[2]] = float(t[3])
                     else: s.imass[t[2]] = float(t[3])
+                elif op == 'setvol':
+                    # a flow assigned in volumetric units (fills the flow view's own molar-volume memo)
+                    if isinstance(s, tmo.MultiStream): s.ivol[s.phases[int(t[4]) % len(s.phases)], t[2]] = float(t[3])
+                    else: s.ivol[t[2]] = float(t[3])
                 elif op == 'setprop':
                     # the other public setters of the thermal / total state
                     what, x = t[2], float(t[3])
@@ -598,6 +635,24 @@ def gen_case(rng, length):
                 at = rng.choice(ATTRS_SINGLE)
                 ops.append(f'unitflow {o} {rng.choice([0.5, 0.25, 0.75])}'); ops.append(f'read {o} {at}')
                 ops.append(f'unitflow {o} {rng.choice([0.25, 0.75, 0.125])}'); ops.append(f'read {o} {at}'); last_read = (o, at)
+        elif r < 0.695 and rng.random() < 0.6:
+            k = rng.random()
+            if k < 0.5:
+                # the flow views' own memo: write (or read) in volumetric / mass units, change T / P / flows, read again
+                u = rng.choice(['m3/hr', 'm3/hr', 'L/min', 'kg/hr'])
+                if rng.random() < 0.7: ops.append(f'setvol {o} {rng.choice(["Water", "Ethanol", "Methanol"])} {rng.choice([0.5, 1.0, 0.02])} {rng.randrange(3)}')
+                ops.append(f'readflow {o} {u}')
+                ops.append(rng.choice([f'setT {o} {rng.choice(TS)}', f'setP {o} {rng.choice(PS)}', f'nudge {o} T 1e-3', f'scale {o} 2',
+                                       f'setflow {o} {rng.randrange(12)} {rng.choice([1, 4])}', f'thermo {o} 2']))
+                ops.append(f'readflow {o} {u}')
+            elif kinds[o] == 'multi' and len(kinds) < 6:
+                # a phase view read before and after the parent changes package (same chemicals, other models)
+                ph = rng.choice('lg'); at = rng.choice(ATTRS_SINGLE)
+                ops.append(f'view {o} {ph}'); kinds.append('view'); v = len(kinds) - 1
+                ops.append(f'read {v} {at}'); ops.append(f'thermo {o} {rng.choice([2, 3])}'); ops.append(f'read {v} {at}')
+                ops.append(f'read {o} {rng.choice(ATTRS_MULTI)}')
+            else:
+                ops.append(f'readflow {o} {rng.choice(["m3/hr", "kg/hr"])}')
         elif r < 0.70: ops.append(f'setflowkey {o} {rng.choice(["Water", "Ethanol", "Methanol"])} {rng.choice([0, 1.5, 6])} {rng.randrange(3)}')
         elif r < 0.71:
             k = rng.random()
